@@ -69,6 +69,7 @@ def _compile_job(job):
 
             shutil.rmtree(d, ignore_errors=True)
         out["src"] = src
+        out["src_records"] = c16_lib.op_records(data)
         # capture what the two checkers are asked during the real compilation
         seen = []
         o_sup, o_sem = TFLiteSupportedOperators.is_operator_supported, TFLiteSemantic.is_operator_semantic_valid
@@ -253,6 +254,7 @@ def main():
         model = fbwalk.parse(r["out_model"])
         cpu_ops, n_npu = observed_cpu_ops(model)
         r["cpu_ops"], r["n_npu"] = cpu_ops, n_npu
+        r["out_records"] = [x for x in c16_lib.op_records(r["out_model"]) if not (x["code"] == 32 and x["custom"] == "ethos-u")]
         for k, s in enumerate(r.get("src", [])):
             preqs += [f"c16 doc {s['desc']}", f"c16 place {s['desc']}", f"c16 docc {s['desc']}"]
             pmeta.append((r, k))
@@ -339,6 +341,31 @@ def main():
                      "(the freshly generated report agrees with the observation)",
                      {"label": r["label"], "opts": r["opts"], "seed": ck.seed, "index": r["idx"], "operator": s["type"], "committed_document": docc,
                       "observed": obs, "descriptor": s["desc"][:3000]}, found_input=True, key=key)
+    # "... stays on the CPU UNCHANGED": every CPU-resident operator of the output file vs the source operator it came from
+    same_reqs, same_meta = [], []
+    for r in results:
+        if r.get("status") != "ok" or "out_records" not in r:
+            continue
+        for o in r["out_records"]:
+            srcs = [x for x in r.get("src_records", []) if x["code"] == o["code"] and x["outs"] == o["outs"]]
+            if len(srcs) == 1:
+                same_reqs.append(f"c16same {srcs[0]['canon']} {o['canon']}")
+                same_meta.append((r, srcs[0], o))
+    changed = [(m, a) for m, a in zip(same_meta, ck.model(same_reqs)) if a != "1"]
+    ck.count("cpu_ops_compared_with_source", len(same_reqs))
+    rep_changed = 0
+    for (r, so, oo), _a in changed:
+        parts_s, parts_o = so["canon"].split("|"), oo["canon"].split("|")
+        what = [n for n, x, y in zip(("code", "custom code", "options type", "options", "custom options", "inputs", "outputs"), parts_s, parts_o) if x != y]
+        key = f"cpu-op-changed:{so['code']}:{'+'.join(w.replace(' ', '_') for w in what)}"
+        if ck.finding_key_known(key) is None:
+            rep_changed += 1
+            if rep_changed > 4:
+                continue
+        ck.violation(f"operator left on the CPU is not written unchanged ({r['label']}, {r['opts'][1]}): builtin {so['code']} outputs {so['outs']} differs in {what}: "
+                     f"source {so['canon'][:160]} / output {oo['canon'][:160]}",
+                     {"label": r["label"], "opts": r["opts"], "seed": ck.seed, "index": r["idx"], "source": so["canon"], "output": oo["canon"], "differs": what},
+                     found_input=True, key=key)
     # console summary vs output file
     for r in results:
         if r.get("status") != "ok" or "cpu_ops" not in r:
@@ -389,6 +416,7 @@ def main():
         "function_level_disagreements": len(fn_dis), "function_level_unmodelled": fn_unmodelled, "spec_rejections_function_level": len(spec_rej),
         "compilations": len(results), "compilations_skipped_c13": c13_skipped, "source_ops_judged": len(judge2_meta),
         "placement_disagreements": len(placement), "placement_known": known_place,
+        "cpu_ops_compared_with_source": len(same_reqs), "cpu_ops_changed": len(changed),
         "operators_seen_by_checkers_in_situ": seen_ops, "in_situ_disagreements": len(insitu_dis),
         "unreached_branches": {"supported_constraints_never_failing_in_stubs": sup_never, "semantic_constraints_never_failing_in_stubs": sem_never},
         "exhaustive": False,
